@@ -41,17 +41,8 @@ def arms_of(sw):
     return arms
 
 
-def run(ctx):
-    R = ctx.R
-    prog = ctx.program(UNITS, thorough_all=False)
-    R.explanation = ("Decides the evaluation-rule clauses of constant folding that are visible in code shape: short-circuit control dependence, per-tag agreement and exhaustiveness of the "
-                     "36 operator tables, left-operand typing of shifts, magnitude-tested narrowing of literals, and zero-divisor guards. Does not decide numeric equality with a C++ compiler.")
-    R.rule("C14-R1", "skipped operands are not evaluated (&&, ||, ?:)", floor=3)
-    R.rule("C14-R2", "operator table arm agrees with its tag; tables exhaustive over the scalar tags", floor=300)
-    R.rule("C14-R3", "shift result type comes from the left operand", floor=4)
-    R.rule("C14-R4", "32-bit narrowing of a suffix-less integer literal is dominated by a magnitude test", floor=2)
-    R.rule("C14-R5", "integer division/modulo guarded against a zero divisor", floor=4)
-
+def short_circuit(prog, R, rule):
+    """&& / || / ?: do not evaluate the operand C++ skips"""
     # ---- R1 --------------------------------------------------------------------------
     be = prog.fn("occa::lang::binaryOpNode::evaluate")
     cfg = be.cfg
@@ -70,23 +61,38 @@ def run(ctx):
     has_and = any("and_" in g for g in guards)
     has_or = any("or_" in g for g in guards)
     uses_left = any("pLeft" in g or "leftValue" in g or "bool" in g for g in guards)
-    R.ob("C14-R1", ok and has_and, be.q, "short-circuit:&&", be.site(rcalls[0]),
+    R.ob(rule, ok and has_and, be.q, "short-circuit:&&", be.site(rcalls[0]),
          "right operand evaluation is control dependent on the operator being && and on the left value" if ok and has_and else
          "both operands are always evaluated: `0 && (1/0)` evaluates the division")
-    R.ob("C14-R1", ok and has_or, be.q, "short-circuit:||", be.site(rcalls[0]),
+    R.ob(rule, ok and has_or, be.q, "short-circuit:||", be.site(rcalls[0]),
          "right operand evaluation is control dependent on the operator being || and on the left value" if ok and has_or else
          "both operands are always evaluated: `1 || (1/0)` evaluates the division")
     # the early results are the C++ results: false for &&, true for ||
     early = [n for n in be.walk() if n["k"] == "ReturnStmt" and not cfg.before(rcalls[0], n)]
     vals = sorted(str(literal(x)) for r in early for x in walk(r) if x["k"] == "CXXBoolLiteralExpr")
-    R.ob("C14-R1", vals == ["False", "True"] or not early, be.q, "short-circuit:values", be.site(rcalls[0]), "early results are %s" % vals)
+    R.ob(rule, vals == ["False", "True"] or not early, be.q, "short-circuit:values", be.site(rcalls[0]), "early results are %s" % vals)
     te = prog.fn("occa::lang::ternaryOpNode::evaluate")
     tc = te.cfg
     tv = [n for n in te.walk() if n["k"] == "CXXMemberCallExpr" and callee(n).endswith("::evaluate") and "trueValue" in render(call_object(n), False)]
     fv = [n for n in te.walk() if n["k"] == "CXXMemberCallExpr" and callee(n).endswith("::evaluate") and "falseValue" in render(call_object(n), False)]
     ok = len(tv) == 1 and len(fv) == 1 and tc.find_path(tc.position(tv[0]), lambda b, i, e: e == fv[0]["i"], lambda b, i, e: False) is None \
         and tc.find_path(tc.position(fv[0]), lambda b, i, e: e == tv[0]["i"], lambda b, i, e: False) is None
-    R.ob("C14-R1", ok, te.q, "ternary:one arm", "%s:%d" % (te.relfile, te.d["line"]), "no path evaluates both arms of ?:")
+    R.ob(rule, ok, te.q, "ternary:one arm", "%s:%d" % (te.relfile, te.d["line"]), "no path evaluates both arms of ?:")
+
+
+
+def run(ctx):
+    R = ctx.R
+    prog = ctx.program(UNITS, thorough_all=False)
+    R.explanation = ("Decides the evaluation-rule clauses of constant folding that are visible in code shape: short-circuit control dependence, per-tag agreement and exhaustiveness of the "
+                     "36 operator tables, left-operand typing of shifts, magnitude-tested narrowing of literals, and zero-divisor guards. Does not decide numeric equality with a C++ compiler.")
+    R.rule("C14-R1", "skipped operands are not evaluated (&&, ||, ?:)", floor=3)
+    R.rule("C14-R2", "operator table arm agrees with its tag; tables exhaustive over the scalar tags", floor=300)
+    R.rule("C14-R3", "shift result type comes from the left operand", floor=4)
+    R.rule("C14-R4", "32-bit narrowing of a suffix-less integer literal is dominated by a magnitude test", floor=2)
+    R.rule("C14-R5", "integer division/modulo guarded against a zero divisor", floor=4)
+
+    short_circuit(prog, R, "C14-R1")
 
     # ---- R2 / R3 / R5 ----------------------------------------------------------------------
     for name in BINOPS + UNOPS:
